@@ -27,6 +27,8 @@ fn cfg(rng: &mut Rng, tier: Tier) -> Cfg {
         own: rng.weighted(&[4, 2, 2, 1, big]),
         peer: rng.weighted(&[4, 2, 2, 1, big]),
         seed: rng.below(1 << 32),
+        init_policy: None,
+        key_policy: None,
     }
 }
 
@@ -96,7 +98,8 @@ impl Prop for C08 {
                 let len = rng.range(0, if tier == Tier::Thorough { 400 } else { 90 }) as usize;
                 let body = rng.bytes(len);
                 let seq = rng.below(100000) as u32 + 1;
-                let Some(base) = secured_chunk(&peer, mt, seq, seq ^ 5, &body) else { continue };
+                let fin = [MessageIsFinalType::Final, MessageIsFinalType::Intermediate, MessageIsFinalType::FinalError][case % 3];
+                let Some(base) = secured_chunk_f(&peer, mt, fin, seq, seq ^ 5, &body) else { continue };
                 ops.push(("valid-sym".into(), base.clone()));
                 mutants(rng, "sym", &base, if tier == Tier::Thorough { 1 } else { 1 }, usize::MAX, &mut ops);
                 // foreign keys: the same plain chunk secured under keys from other nonces
@@ -112,11 +115,15 @@ impl Prop for C08 {
                 let pol2 = *rng.pick(&POLICIES[1..]);
                 if pol2 != c.policy {
                     let p2 = c.peer_channel(pol2, c.mode);
-                    if let Some(v) = secured_chunk(&p2, mt, seq, seq ^ 5, &body) {
+                    if let Some(v) = secured_chunk_f(&p2, mt, fin, seq, seq ^ 5, &body) {
                         // Basic256Sha256 and Aes256Sha256RsaPss share one symmetric suite (P_SHA256,
-                        // HMAC-SHA256/32, AES-256): from the same nonces they produce the SAME bytes,
-                        // which is therefore not a mutant
-                        let label = if v == base { "valid-sym-same-suite" } else { "mut-sym-foreign-policy" };
+                        // HMAC-SHA256/32, AES-256): from the same nonces they derive the SAME keys, so a
+                        // chunk secured under the one is a legitimate chunk of the other, not a mutant
+                        let same_suite = |a: SecurityPolicy, b: SecurityPolicy| {
+                            let s = |p| matches!(p, SecurityPolicy::Basic256Sha256 | SecurityPolicy::Aes256Sha256RsaPss);
+                            s(a) && s(b)
+                        };
+                        let label = if same_suite(pol2, c.policy) { "valid-sym-same-suite" } else { "mut-sym-foreign-policy" };
                         ops.push((label.into(), v));
                     }
                 }
@@ -184,19 +191,34 @@ impl Prop for C08 {
                     ops.push(("mut-opn-policy-none".into(), v));
                 }
             }
-            for (label, bytes) in ops {
-                out.push(recv_line(&c, &label, &bytes));
+            for (label, bytes) in &ops {
+                out.push(recv_line(&c, label, bytes));
+            }
+            // renewal: after new nonces + derive_keys the chunks secured under the OLD keys are foreign,
+            // chunks under the new keys are accepted
+            if case % 3 != 2 {
+                let old_valid = ops[0].1.clone();
+                let mut c2 = c.clone();
+                c2.init_policy = Some(c.policy);
+                c2.seed = rng.below(1 << 32);
+                out.push(format!("rekey {}", c2.seed));
+                out.push(recv_line(&c2, "mut-sym-old-keys", &old_valid));
+                let p2 = c2.peer_channel(c2.policy, c2.mode);
+                if let Some(v) = secured_chunk(&p2, MessageChunkType::Message, 77, 78, b"after renewal") {
+                    out.push(recv_line(&c2, "valid-sym-new-keys", &v));
+                }
             }
         }
     }
 
     fn runner(&self) -> Box<dyn Runner> {
-        Box::new(R { me: None })
+        Box::new(R { me: None, cfg: None })
     }
 }
 
 struct R {
     me: Option<SecureChannel>,
+    cfg: Option<Cfg>,
 }
 
 impl Runner for R {
@@ -207,9 +229,23 @@ impl Runner for R {
                     let me = cfg.me();
                     let s = format!("ok p={}", policy_name(me.security_policy()));
                     self.me = Some(me);
+                    self.cfg = Some(cfg);
                     (s, Verdict::Ok)
                 }
                 None => ("bad-op".to_string(), Verdict::Ok),
+            },
+            ["rekey", seed] => match (self.me.as_mut(), self.cfg.as_mut(), seed.parse::<u64>()) {
+                (Some(me), Some(cfg), Ok(seed)) if me.security_policy() != SecurityPolicy::None => {
+                    // renewal: new nonces on both sides, keys derived again
+                    cfg.init_policy = Some(cfg.init_policy.unwrap_or(cfg.policy));
+                    cfg.seed = seed;
+                    let (mine, theirs) = cfg.nonces();
+                    me.set_local_nonce(&mine);
+                    me.set_remote_nonce(&theirs);
+                    me.derive_keys();
+                    (format!("ok p={}", policy_name(me.security_policy())), Verdict::Ok)
+                }
+                _ => ("bad-op".to_string(), Verdict::Ok),
             },
             ["recv", label, src, ..] if toks.len() == 9 => {
                 let (Some(me), Some(src)) = (self.me.as_mut(), unhex(src)) else {
